@@ -1402,6 +1402,27 @@ def gen_latepeer(rng, i):
     return "late%d %s" % (i, " ".join(ops)), {"kind": "latepeer", "ncomp": ncomp}
 
 
+def gen_split_components(rng, i):
+    """C01: two components whose only working paths use DIFFERENT address pairs (per-port black holes): component 1 can only connect A1<->B1, component 2
+    only A2<->B2 (or the other way round), so the pair nominated for one component has no counterpart with the same addresses in the other.  Either
+    nomination mode; loss-free otherwise.  Both components must reach READY on mirrored pairs."""
+    ips = (("10.0.0.1", "10.0.0.2"), ("10.0.1.1", "10.0.1.2"))
+    opts = tuple(rng.choice([0, OPT_REGULAR, OPT_REGULAR]) for _ in (0, 1))
+    ops = two_agents(rng, 0, opts, rng.choice([(1, 0), (0, 1), (1, 1), (0, 0)]), ips, 2)
+    ops.append("net,0,0,1,%d,3" % rng.choice([1, 10, 30]))
+    swap = rng.randrange(2)
+    # UDP host candidates take the ports 40000, 40001, ... in creation order: agent 0 gathers first (component by component, address by address)
+    for c in (0, 1):
+        keep = (c ^ swap, c ^ swap)
+        for a in (0, 1):
+            for b in (0, 1):
+                if (a, b) != keep:
+                    x = "%s:%d" % (ips[0][a], 40000 + c * 2 + a); y = "%s:%d" % (ips[1][b], 40004 + c * 2 + b)
+                    ops += ["hole,%s,%s,on" % (x, y), "hole,%s,%s,on" % (y, x)]
+    ops += ["gather,0,1", "gather,1,1", "run,20"] + signalling(rng, 2) + ["run,%d" % rng.choice([8000, 15000]), "digest", "run,3000", "digest"] + final_queries(2)
+    return "split%d %s" % (i, " ".join(ops)), {"kind": "split-components", "ncomp": 2, "drop": 0}
+
+
 def gen_blackhole(rng, i):
     """two agents (reliable = pseudo-TCP over UDP candidates, or not), configured N transmissions, every path between them black-holed in
     both directions: each connectivity check must be transmitted exactly N times, RTO, 2 RTO, 4 RTO ... apart, where RTO = max(500 ms, Ta * pairs
